@@ -145,7 +145,11 @@ def enumerate_candidates(p, ctx=None, ops=None, rich=True):
             add("mult_loops", L, lambda s=s, nm=nm: S.mult_loops(p, s, nm + "m"), lo_is_zero=lo0)
             add("lift_scope", L, lambda s=s: S.lift_scope(p, s.body()[0]) if len(s.body()) else None,
                 kind="for-child")
-            for oh, os_ in (("1", 2), ("2", 2), (f"({hi_s}) / 2", 2), (f"({hi_s}) / 4", 4), ("2", 1)):
+            # (outer_hi, outer_stride): literals, quotients whose divisor equals the stride, and quotients whose
+            # divisor differs from it (both ways)
+            for oh, os_ in (("1", 2), ("2", 2), (f"({hi_s}) / 2", 2), (f"({hi_s}) / 4", 4), ("2", 1),
+                            (f"({hi_s}) / 4", 8), (f"({hi_s}) / 8", 4), (f"({hi_s}) / 2", 4), (f"({hi_s}) / 4", 2),
+                            (f"({hi_s}) / 3", 2), (f"({hi_s} + 1) / 2", 2)):
                 add("divide_with_recompute", f"{L},{oh},{os_}",
                     lambda s=s, oh=oh, os_=os_, nm=nm: S.divide_with_recompute(p, s, oh, os_, [nm + "o", nm + "i"]),
                     lo_is_zero=lo0)
